@@ -12,7 +12,6 @@ package zzir
 
 import (
 	"math"
-	"math/bits"
 
 	zz "github.com/gogpu/naga/internal/zzverif"
 	"github.com/gogpu/naga/ir"
@@ -724,6 +723,37 @@ func (in *Interp) math(fr *frame, k ir.ExprMath) *Val {
 			args = append(args, in.value(fr, *a))
 		}
 	}
+	switch k.Fun {
+	case ir.MathDot:
+		if len(args) == 2 && args[0].K == 'V' && args[1].K == 'V' && len(args[0].E) == len(args[1].E) {
+			acc := in.scalarBin(ir.BinaryMultiply, args[0].E[0], args[1].E[0])
+			for i := 1; i < len(args[0].E); i++ {
+				acc = in.scalarBin(ir.BinaryAdd, acc, in.scalarBin(ir.BinaryMultiply, args[0].E[i], args[1].E[i]))
+			}
+			return acc
+		}
+		in.fail("dot of non-vectors")
+		return &Val{K: 'i'}
+	case ir.MathPack4xU8, ir.MathPack4xI8:
+		if args[0].K == 'V' && len(args[0].E) == 4 {
+			e := args[0].E
+			return &Val{K: 'u', S: e[0].S&0xFF | (e[1].S&0xFF)<<8 | (e[2].S&0xFF)<<16 | (e[3].S&0xFF)<<24}
+		}
+		in.fail("pack4x8 of a non-vec4")
+		return &Val{K: 'u'}
+	case ir.MathUnpack4xU8:
+		r := &Val{K: 'V'}
+		for i := uint(0); i < 4; i++ {
+			r.E = append(r.E, &Val{K: 'u', S: args[0].S >> (8 * i) & 0xFF})
+		}
+		return r
+	case ir.MathUnpack4xI8:
+		r := &Val{K: 'V'}
+		for i := uint(0); i < 4; i++ {
+			r.E = append(r.E, &Val{K: 'i', S: uint32(int32(int8(args[0].S >> (8 * i))))})
+		}
+		return r
+	}
 	n := 0
 	for _, a := range args {
 		if a.K == 'V' {
@@ -762,9 +792,48 @@ func (in *Interp) math(fr *frame, k ir.ExprMath) *Val {
 			}
 			return v
 		case ir.MathCountOneBits:
-			return &Val{K: xs[0].K, S: uint32(bits.OnesCount32(xs[0].S))}
+			return &Val{K: xs[0].K, S: popc32(xs[0].S)}
 		case ir.MathReverseBits:
-			return &Val{K: xs[0].K, S: bits.Reverse32(xs[0].S)}
+			return &Val{K: xs[0].K, S: rev32(xs[0].S)}
+		case ir.MathCountLeadingZeros:
+			return &Val{K: xs[0].K, S: clz32(xs[0].S)}
+		case ir.MathCountTrailingZeros:
+			return &Val{K: xs[0].K, S: ctz32(xs[0].S)}
+		case ir.MathFirstLeadingBit:
+			x := xs[0].S
+			if xs[0].K == 'i' {
+				x ^= uint32(int32(x) >> 31)
+			}
+			return &Val{K: xs[0].K, S: 31 - clz32(x)}
+		case ir.MathFirstTrailingBit:
+			tz := ctz32(xs[0].S)
+			return &Val{K: xs[0].K, S: tz | -(tz >> 5)}
+		case ir.MathExtractBits:
+			o := xs[1].S
+			if o > 32 {
+				o = 32
+			}
+			c := xs[2].S
+			if c > 32-o {
+				c = 32 - o
+			}
+			v := uint32((uint64(xs[0].S) >> o) & (uint64(1)<<c - 1))
+			if xs[0].K == 'i' && c > 0 && c < 32 {
+				sh := 32 - c
+				v = uint32(int32(v<<sh) >> sh)
+			}
+			return &Val{K: xs[0].K, S: v}
+		case ir.MathInsertBits:
+			o := xs[2].S
+			if o > 32 {
+				o = 32
+			}
+			c := xs[3].S
+			if c > 32-o {
+				c = 32 - o
+			}
+			mask := uint32((uint64(1)<<c - 1) << o)
+			return &Val{K: xs[0].K, S: xs[0].S&^mask | uint32(uint64(xs[1].S)<<o)&mask}
 		}
 		in.fail("math function not modelled")
 		return xs[0]
@@ -1097,4 +1166,33 @@ func (in *Interp) Run(entry string, buf []uint32) ([]uint32, string) {
 		out = append(out, c.S)
 	}
 	return out, ""
+}
+
+// branch-free bit counting (the reference closures of the templates use math/bits)
+func popc32(x uint32) uint32 {
+	// sum of the bits (the SWAR multiply form is not decided by the solvers against it)
+	var n uint32
+	for i := uint(0); i < 32; i++ {
+		n += x >> i & 1
+	}
+	return n
+}
+
+func clz32(x uint32) uint32 {
+	x |= x >> 1
+	x |= x >> 2
+	x |= x >> 4
+	x |= x >> 8
+	x |= x >> 16
+	return 32 - popc32(x)
+}
+
+func ctz32(x uint32) uint32 { return popc32((x & -x) - 1) }
+
+func rev32(x uint32) uint32 {
+	x = x>>1&0x55555555 | x&0x55555555<<1
+	x = x>>2&0x33333333 | x&0x33333333<<2
+	x = x>>4&0x0F0F0F0F | x&0x0F0F0F0F<<4
+	x = x>>8&0x00FF00FF | x&0x00FF00FF<<8
+	return x>>16 | x<<16
 }
